@@ -398,7 +398,7 @@ func init() {
 		if intr != nil {
 			isaw = " " + intr.wait()
 		}
-		s.echo(fmt.Sprintf("%s nows=%s files=%s clock=%d,%d%s%s", strings.Join(tk, " "), csvOrDash(nows), csvOrDash(files), t0, t1, liveAt, isaw))
+		s.echo(fmt.Sprintf("%s nows=%s files=%s clock=%d,%d%s%s%s", strings.Join(tk, " "), csvOrDash(nows), csvOrDash(files), t0, t1, liveAt, isaw, s.roSkip()))
 		if a.num("nostatus", 0) == 1 && !panicked {
 			// which of several failures is reported is not determined: only what the files hold afterwards is compared
 			s.obs("clicopy done")
@@ -558,7 +558,7 @@ func init() {
 		if a["live"] != "" {
 			liveAt = " liveat=" + <-liveDone
 		}
-		s.echo(fmt.Sprintf("%s nows=%s items=%s clock=%d,%d%s", strings.Join(tk, " "), csvOrDash(nows), items, t0, t1, liveAt))
+		s.echo(fmt.Sprintf("%s nows=%s items=%s clock=%d,%d%s%s", strings.Join(tk, " "), csvOrDash(nows), items, t0, t1, liveAt, s.roSkip()))
 		if a.num("nostatus", 0) == 1 && !panicked {
 			s.obs("clisumcopy done")
 		} else {
